@@ -177,6 +177,17 @@ CHECKS = {
              "backslash, '=', non-UTF-8); every wrapper method x {INT_MIN+1, -EINVAL, -EPIPE, -ETIMEDOUT, -ENOMEM, -EWOULDBLOCK, -1, 0, 1, 137, INT_MAX} with "
              "argument pass-through; enumerator and constant equality; one destroy per new.",
         note="Trusted base: g++, the fake C layer and comparisons in /verif/cxx/h_c19.cpp. Integer fields are checked on boundary menus, not on all values."),
+    "C20": dict(
+        cat="model_checking", design="3/C20, 2.6",
+        technique="stateless model checking of the real library under a cooperative thread scheduler over the intercepted calls (preemption-bounded exhaustive schedules), plus a separate free-running ThreadSanitizer monitor of the same thread bodies",
+        text="One runnable thread at a time; every intercepted call (including pipe/fcntl/fork) is a scheduling point; switching away from a thread that "
+             "could continue costs one preemption, switches at blocked calls, joins and thread exits are free. (B) two threads (thorough: also three) "
+             "each running new/start/write/close(IN)/read-to-EPIPE/wait/destroy on their own echo child: own bytes back, own status, the child's hello "
+             "shows no descriptor of the other thread's pipes, and right after a thread's close(IN) its own child sees EOF with nobody else moving - all "
+             "schedules with <=1 preemption (thorough <=2), emulated and real exec. (A) writer thread (3 + cap+1 bytes, close) and reader thread on one "
+             "echo child, <=2 (3) preemptions: reader gets exactly the writer's bytes. (C) reproc_strerror from two threads with a switch between call "
+             "and use. Data races below call granularity are looked for by a free-running TSan build (60 / 400 runs of three concurrent life cycles plus a "
+             "reader/writer pair on real cat/sh children): a monitor, not an enumeration."),
 }
 
 NOT_YET = "check not built yet (work in progress; see DESIGN.md section 7 for the build order)"
